@@ -76,6 +76,12 @@ pub fn std_sweep(tier: Tier, flavor: Flavor) -> Vec<Part> {
         c5 = gen::cfgs(&mode_sets, &[d, a, sq(14, 14), sq(8, 32), sq(16, 16)], &on, &off);
     }
     parts.push(Part { name: "ES-B sigma10=5", family: Family::Over { alpha: SIGMA10.to_vec(), min: 5, max: 5 }, cfgs: c5 });
+    // ES-B2: a 5-letter alphabet (one letter per character class) up to length 8
+    parts.push(Part {
+        name: "ES-B2 sigma5 6..8",
+        family: Family::Over { alpha: vec![b'A', b'a', b'1', b'*', 0x80], min: 6, max: tier.pick(8, 9) },
+        cfgs: gen::cfgs(&[ALL_MODES], &[d], &on, &off),
+    });
     // ES-C
     parts.push(Part { name: "ES-C contexts", family: gen::es_c(false), cfgs: gen::cfgs(&mq, &[d, a], &on, &off) });
     // ES-D
